@@ -26,6 +26,9 @@ pub struct Case {
     pub pre: usize,
     pub head: bool,
     pub capacity: usize,
+    /// run through the real FollowFileExecutor in a child process (its own seek and 8 KiB reader) instead of the bare iterator
+    #[serde(default)]
+    pub exec_level: bool,
 }
 
 pub struct C10;
@@ -271,7 +274,8 @@ impl Property for C10 {
             1 => t.draw(nseg + 1),
             _ => 0,
         };
-        let mut case = Case { content, polls, idle: Vec::new(), pre: 0, head, capacity: *t.pick(&CAPACITIES) };
+        let exec_level = t.chance(1, 40);
+        let mut case = Case { content, polls, idle: Vec::new(), pre: 0, head, capacity: *t.pick(&CAPACITIES), exec_level };
         if !head {
             // the start position must be a character boundary (the content before it is not read)
             let b = boundaries(&case);
@@ -310,7 +314,7 @@ impl Property for C10 {
             }
         }
         // without --head everything is appended after start-up (pre = 0): same expectation, other seek path
-        Some(Case { content, polls, idle: Vec::new(), pre: 0, head, capacity })
+        Some(Case { content, polls, idle: Vec::new(), pre: 0, head, capacity, exec_level: false })
     }
 
     fn enum_description(&self) -> Option<String> {
@@ -354,6 +358,48 @@ impl Property for C10 {
         }
         obs.nontrivial = inside_line;
 
+        if case.exec_level {
+            obs.label("executor-level");
+            let job = crate::follow_child::FollowJob {
+                defs: "CREATE TABLE t('(.*)' => l TEXT);".to_string(),
+                query: "SELECT input FROM t".to_string(),
+                content: case.content.clone(),
+                polls: case.polls.clone(),
+                idle: case.idle.clone(),
+                pre,
+                head: case.head,
+                interrupt_at_probe: None,
+                file: ctx.file("follow-exec.txt").to_string_lossy().to_string(),
+            };
+            let out = match crate::follow_child::run_follow(ctx, &job) {
+                Ok(o) => o,
+                Err(e) => {
+                    eprintln!("follow child problem: {}", e);
+                    std::process::exit(2);
+                }
+            };
+            let mut got: Vec<String> = Vec::new();
+            for line in out.stdout.lines() {
+                if line.is_empty() {
+                    continue;
+                }
+                match crate::value::parse_json(line) {
+                    Ok(j) => match j.get("input") {
+                        Some(crate::value::J::Str(s)) => got.push(s.clone()),
+                        other => return Err(Failure::new("executor-level: undecodable", format!("line {:?}: {:?}", line, other))),
+                    },
+                    Err(e) => return Err(Failure::new("executor-level: undecodable", format!("line {:?}: {}", line, e))),
+                }
+            }
+            let want: Vec<String> = expected.iter().map(|l| String::from_utf8_lossy(l).into_owned()).collect();
+            if got != want || out.result.is_err() {
+                return Err(Failure::new(
+                    format!("executor-level: {}", if case.head { "head" } else if pre > 0 { "tail-with-existing-content" } else { "tail" }),
+                    format!("content {:?}, polls {:?}, {} bytes present at start-up, head={}\n  FollowFileExecutor delivered {:?} ({:?})\n  expected {:?}", case.content, &b[1..b.len() - 1], b[pre], case.head, got, out.result, want),
+                ));
+            }
+            return Ok(());
+        }
         let delivered = match run_iterator(case, ctx) {
             Ok(d) => d,
             Err(e) if e.starts_with("panic") => return Err(Failure::new("panic", e)),
